@@ -63,3 +63,43 @@ def snapshot(root, aliasing=True):
 def values(root):
     """snapshot without aliasing structure (pure value comparison)."""
     return _plain(root)
+
+
+# attributes that make up the observable state of each library class (the attribute set of
+# the pinned tree); private memo / cache attributes added by a refactoring are not
+# "observable attributes" and are ignored, a stale cache shows up in the answers instead
+OBSERVABLE = {
+    'Point': ('x', 'y', 'z'),
+    'Vector': ('_v',),
+    'Line': ('sv', 'dv'),
+    'Plane': ('p', 'n'),
+    'Segment': ('start_point', 'end_point', 'line'),
+    'HalfLine': ('point', 'vector', 'line'),
+    'ConvexPolygon': ('points', 'plane', 'center_point'),
+    'ConvexPolyhedron': ('convex_polygons', 'point_set', 'segment_set', 'pyramid_set', 'center_point'),
+    'Pyramid': ('convex_polygon', 'point'),
+}
+
+
+def observable(root):
+    """value snapshot restricted to the observable attributes of library objects (floats
+    bit-exact, container kinds kept, sets sorted)."""
+    def walk(x, depth=0):
+        l = _leaf(x)
+        if l is not None:
+            return l
+        if depth > 14:
+            return ('deep',)
+        if isinstance(x, (list, tuple)):
+            return (type(x).__name__, tuple(walk(e, depth + 1) for e in x))
+        if isinstance(x, (set, frozenset)):
+            return (type(x).__name__, tuple(sorted((walk(e, depth + 1) for e in x), key=repr)))
+        if isinstance(x, dict):
+            return ('dict', tuple(sorted(((walk(k, depth + 1), walk(v, depth + 1)) for k, v in x.items()), key=repr)))
+        n = type(x).__name__
+        if n in OBSERVABLE:
+            return (n, tuple((a, walk(getattr(x, a, '<missing>'), depth + 1)) for a in OBSERVABLE[n]))
+        if hasattr(x, '__dict__'):
+            return (n, tuple((k, walk(v, depth + 1)) for k, v in sorted(vars(x).items()) if not k.startswith('_')))
+        return ('opaque', n)
+    return walk(root)
